@@ -23,6 +23,8 @@ pub enum LockOp {
     CloseChild(u8),
     KillChild(u8),
     Commit,
+    /// the in-process owner takes a checkpoint and restores it at once (the state does not change; the lock must stay)
+    CheckpointRestore,
     /// n racers (threads in this process, or child processes) try to open at the same time
     Race { n: u8, children: bool },
 }
@@ -92,6 +94,7 @@ struct St {
     children: BTreeMap<u8, ChildProc>,
     model: BTreeMap<String, String>,
     n_commit: u32,
+    n_cp: u32,
     stats: Stats,
     last_release: Option<&'static str>,
 }
@@ -200,6 +203,8 @@ fn diff(a: &[(String, u64, u64)], b: &[(String, u64, u64)]) -> Vec<String> {
 }
 
 async fn run_inner(case: &LockCase, dir: &Path, st: &mut St) -> R<()> {
+    // checkpoints live next to the database directory, not inside it
+    let cp_root = dir.parent().unwrap_or(dir).join("lock-checkpoints");
     surrealkv::verif::set_manual_background(true);
     // prelude: a first owner writes some data and goes away without flushing (WAL replay on every later open)
     if case.prelude > 0 {
@@ -296,6 +301,21 @@ async fn run_inner(case: &LockCase, dir: &Path, st: &mut St) -> R<()> {
                     None => {}
                 }
             }
+            LockOp::CheckpointRestore => {
+                if let Some(Owner::In(i)) = st.owner {
+                    let t = st.ins.get(&i).unwrap();
+                    st.n_cp += 1;
+                    let cp = cp_root.join(format!("cp{}", st.n_cp));
+                    let _ = std::fs::remove_dir_all(&cp);
+                    if let Err(e) = t.create_checkpoint(&cp) {
+                        return fail("checkpoint-error", si, format!("create_checkpoint failed: {e:?}"));
+                    }
+                    if let Err(e) = t.restore_from_checkpoint(&cp) {
+                        return fail("restore-error", si, format!("restore_from_checkpoint failed: {e:?}"));
+                    }
+                    st.stats.inc("owner_restored_a_checkpoint");
+                }
+            }
             LockOp::Race { n, children } => {
                 let n = (*n % 3 + 2) as usize;
                 let expect = if st.owner.is_none() { 1 } else { 0 };
@@ -383,7 +403,7 @@ async fn run_inner(case: &LockCase, dir: &Path, st: &mut St) -> R<()> {
 pub fn run_lock_case(case: &LockCase, dir: &Path) -> CaseResult {
     let db = dir.join("db");
     let _ = std::fs::create_dir_all(&db);
-    let mut st = St { dir: db.clone(), owner: None, ins: BTreeMap::new(), children: BTreeMap::new(), model: BTreeMap::new(), n_commit: 0, stats: Stats::default(), last_release: None };
+    let mut st = St { dir: db.clone(), owner: None, ins: BTreeMap::new(), children: BTreeMap::new(), model: BTreeMap::new(), n_commit: 0, n_cp: 0, stats: Stats::default(), last_release: None };
     let rt = tokio::runtime::Builder::new_current_thread().enable_all().build().expect("runtime");
     let failure = rt.block_on(run_inner(case, &db, &mut st)).err();
     for (_, c) in std::mem::take(&mut st.children) {
@@ -416,6 +436,7 @@ pub fn c19() -> PropDef<LockCase> {
                 2 => (0u8..3).prop_map(LockOp::CloseChild),
                 2 => (0u8..3).prop_map(LockOp::KillChild),
                 4 => Just(LockOp::Commit),
+                2 => Just(LockOp::CheckpointRestore),
                 1 => (0u8..3, any::<bool>()).prop_map(|(n, children)| LockOp::Race { n, children }),
             ];
             (0u8..4, vec(op, 6..26)).prop_map(|(prelude, ops)| LockCase { prelude, ops }).boxed()
